@@ -80,6 +80,17 @@ Theorem C01_inCheck : forall p, WF p ->
 Proof. exact (fun p H => conj (inCheck_spec p H) (fun wtm sq Hs => sqAttacked_spec p wtm sq H Hs)). Qed.
 Print Assumptions C01_inCheck.
 
+(** The same holds under the weaker [BoardOK] (bitboards agree with the board, piece codes in
+    range), i.e. also for the position in the middle of removeIllegal's make / test / unmake,
+    which need not be an accepted position: the king test there is the Spec's in_checkb. *)
+Theorem C01_attack_test_general : forall p w, BoardOK p ->
+  (forall sq, sq < 64 -> sqAttackedT w p sq (occupiedBB p) = attacked_by (squares p) (negb w) (zf sq) (zr sq)) /\
+  ((exists s, s < 64 /\ getPiece p s = mk_piece w King) ->
+   (forall s1 s2, s1 < 64 -> s2 < 64 -> getPiece p s1 = mk_piece w King -> getPiece p s2 = mk_piece w King -> s1 = s2) ->
+   sqAttackedT w p (kingSq p w) (occupiedBB p) = in_checkb (squares p) w).
+Proof. exact (fun p w H => conj (fun sq Hs => sqAttacked_spec_B p w sq H Hs) (kingAttacked_spec_B p w H)). Qed.
+Print Assumptions C01_attack_test_general.
+
 (** Every piece block of pseudoLegalMoves generates exactly the Spec's pseudo-moves of that
     piece kind (queen, rook, bishop, knight, king without castling, pawn incl. double push,
     en passant and the four promotions), for every well-formed position. *)
